@@ -88,6 +88,9 @@ func (fc *FnCtx) generateOnce(res *FuncResult) *Frame {
 		name := "fv_" + identOf(fv.Name())
 		fc.emit(fmt.Sprintf("(declare-const %s %s)", name, fc.sortOf(fv.Type())))
 		t := mk(name, fc.sortOf(fv.Type()), fv.Type())
+		if !isAggregate(elemTypeOfPtr(fv.Type())) {
+			t.Sh = &PShape{Kind: 'o'} // captured variables live in their own box
+		}
 		fr.freeVars[fv] = t
 		fc.assume(st, fc.allocInv(t, fv.Type(), st.nextID, 0))
 		fc.assume(st, tNot(mk(fmt.Sprintf("(is_PNull %s)", t.S), SBool, nil)))
@@ -137,7 +140,7 @@ func (fc *FnCtx) generateOnce(res *FuncResult) *Frame {
 				}
 			}
 		}
-		for k, e := range spec.Ensures {
+		for k, e := range append(append([]Clause(nil), spec.Ensures...), spec.EnsuresLocal...) {
 			t, err := fc.evalGoal(post, e)
 			if err != nil {
 				res.Mismatch = append(res.Mismatch, fmt.Sprintf("ensures %d: %v", k+1, err))
